@@ -56,16 +56,20 @@ CLAIMS = {
     ),
     "C11": dict(
         category="proof",
-        text="Coq theorems: for EVERY well-formed dense model the generated logic_net runs without out-of-bounds index, "
-             "uninitialised read or write to the input (exec = Some) and fills out; a verified checker safe_check (sound for all "
-             "inputs and word sizes because success of the interpreter is value-independent) is evaluated in the kernel on the "
-             "parsed emitted text of every sampled dense/conv2d/conv3d/pool/mixed model; the wrapper's index extents are proved "
-             "for every number of words; exec is a function (no UB/unspecified order in the fragment). Supported by ASan/UBSan "
-             "standalone builds at -O0/-O2 (gcc, clang) and cross-optimisation-level output comparison.",
+        text="Coq theorems: for EVERY well-formed dense model (C11_safe_dense) and EVERY well-formed stack Conv (Conv|Pool)* "
+             "[Flatten Dense*], 2-D/3-D (C11_safe_net, corollary of the generator proof of C02) the generated logic_net runs without "
+             "out-of-bounds index, uninitialised read or write to the input (exec = Some) and fills out; the generator models are "
+             "tied to the emitter by text equality checked in the kernel for every sampled model and, through a streaming comparison "
+             "proved sound (C11_safe_emitted), for the library's predefined architectures (13k..60k statements); a verified checker "
+             "safe_check (sound for all inputs and word sizes because success of the interpreter is value-independent) is also "
+             "evaluated in the kernel on every sampled program; the wrapper's index extents are proved for every number of words; "
+             "exec is a function (no UB/unspecified order in the fragment). Supported by ASan/UBSan standalone builds at -O0/-O2 "
+             "(gcc, clang) and cross-optimisation-level output comparison.",
         design_ref="DESIGN.md section 6 C11",
-        note="Coq kernel (closed theorems); strict C parser; compilers trusted on the fragment; large predefined architectures only "
-             "through the unverified Python mirror; stack exhaustion and signed-shift UB excluded (see DESIGN).",
-        technique="Rocq/Coq proof (interpreter that fails on unsafe access; forall-model theorem for dense, verified per-program checker otherwise) + sanitizer runs",
+        note="Coq kernel (closed theorems); strict C parser; compilers trusted on the fragment; stack exhaustion and signed-shift UB "
+             "excluded (see DESIGN).",
+        technique="Rocq/Coq proof (interpreter that fails on unsafe access; forall-model theorems for dense and conv/pool generator "
+                  "models; verified per-program checker) + text-equality correspondence + sanitizer runs",
     ),
     "C13": dict(
         category="proof",
